@@ -47,6 +47,12 @@ CHECKS = {
   text="The full product of 16 protection states (write key x read key x read-only x disabled), 13 caller contexts (no/wrong/right write and read key, also as SubContexts), 27 operations (whole Location API, Env.* location functions reached from RunJavascript, events whose rule actions mutate), 4 set-up histories, both states and both drivers is executed: a mutating call without write authority must fail and leave private state + storage identical, a revealing call without read authority must fail and return no data, a fully authorised call must equal the same call on an unprotected twin.",
   note="The mutating/revealing classification is argued at the top of c19.go (RuleEnabled, GetParents unclassified). ListRules' documented swallowing of the search error (empty list) is accepted as a refusal.",
   design="2/C19"),
+ "C20": dict(
+  engine="SEQ",
+  technique="explicit-state model checking: BFS over add/remove histories around the capacity boundary, and explicit-state search over breaker arrival patterns under a virtual clock with state-hash dedup",
+  text="Capacity: BFS to depth 5 (7 thorough) over AddFact (4 ids + generated) / AddRule / RemFact / EnableRule sequences for MaxFacts in {1,2,3} on both states: after every successful add StateSize <= MaxFacts, a refused add leaves private state + storage unchanged. Breaker: every arrival pattern up to length 8 (11 thorough) over {Do, clock advances of 1/4, 1/2, 1, 3/2 ticks, 1/2 and 1 interval, steady polling every 1/2 or 3/2 tick for one interval} for limit in {1,2,3} x interval in {20ms, 1s} (thorough adds 10ns, 30ns, 400ns), states deduplicated on (window counts, now-updated, recent admissions): every admission must be at most the limit-th within its sliding interval, and Do must admit when no admission happened in the last two intervals.",
+  note="Sequential clauses only in this revision: the concurrent clauses (two adds at the boundary, concurrent Do, Throttle pending bound) belong to the schedule engine. Recovery is read generously (two intervals).",
+  design="2/C20"),
  "C10": dict(
   engine="SEQ",
   technique="explicit-state model checking: exhaustive BFS over rule-lifecycle histories (add/overwrite/remove/disable/enable/reload/location toggle/expiry) under a virtual clock, lifecycle-automaton oracle",
